@@ -16,6 +16,10 @@ static uint8_t put_pattern(size_t opi, size_t j) { return (uint8_t)(0x5a ^ strea
 struct EpHarness : Harness {
     const char *name() const override { return "epsim"; }
     std::vector<std::string> props() const override { return {"C17"}; }
+    std::vector<std::string> probes(const std::string &) const override {
+        return {"eintr_retried", "eagain_retried", "zero_return_retried", "partial_then_rest", "hard_error_after_prefix", "octet_driver_through_chunk_api",
+                "chunk_driver_through_octet_api", "aux_smaller_than_n_multiple_rounds", "drain_end_mid_chunk", "drain_to_end_of_stream", "invalid_count_refused"};
+    }
     uint64_t runs(const std::string &, const Tier &t) const override { return t.thorough() ? 40000000 : 3000000; }
 
     Json describe(const std::string &) const override {
@@ -371,10 +375,5 @@ struct EpHarness : Harness {
 
 int main(int argc, char **argv) {
     EpHarness h;
-    DECLARE_COUNTER("probe.eintr_retried"); DECLARE_COUNTER("probe.eagain_retried"); DECLARE_COUNTER("probe.zero_return_retried");
-    DECLARE_COUNTER("probe.partial_then_rest"); DECLARE_COUNTER("probe.hard_error_after_prefix");
-    DECLARE_COUNTER("probe.octet_driver_through_chunk_api"); DECLARE_COUNTER("probe.chunk_driver_through_octet_api");
-    DECLARE_COUNTER("probe.aux_smaller_than_n_multiple_rounds"); DECLARE_COUNTER("probe.drain_end_mid_chunk");
-    DECLARE_COUNTER("probe.drain_to_end_of_stream"); DECLARE_COUNTER("probe.invalid_count_refused");
     return sim_main(argc, argv, h);
 }
